@@ -316,3 +316,39 @@ def ge7(P, C):
             "the store %s is not executed for every other dimension of every entry (inner loop `%s; %s`, enclosing branches: %d, continue/break in the loop: %d): " \
             "the skipped columns keep what realloc left there" % (f.render(i)[:50], kinit, kcond, len(branches), len(jumps))
     C.ob("GE-7", "slicemultiply", "other-columns", ok, f.loc(other[0][0]) if other else f.where(), det)
+
+
+def ge8(P, C):
+    """GE-8: the basis matrix applied along dimension i is computed for dimension i."""
+    C.rule("GE-8", "inside the loop over the dimensions of grideval every path from the loop head to slicemultiply passes through the "
+           "bsplinebasis call and the transposition of that iteration (their blocks dominate the multiplication and lie in the same loop): the "
+           "matrix applied along dimension i has one row per abscissa of coords[i]. A matrix kept from an earlier iteration has the earlier "
+           "axis' number of rows — the grid lengths are then no longer the index ranges of the result", floor=2)
+    gs = [f for f in P.fns("grideval") if f.cls == ts.CLS and f.unit == "driver"]
+    if len(gs) < 2:
+        raise core.AnalysisBroken("grideval: expected two instantiations (vector, array_view), found %d" % len(gs))
+    for f in gs:
+        name = "grideval<%s>" % ("array_view" if "array_view" in f.qname else "vector")
+        pos = f.node_positions()
+        dom = f.dominators()
+        sm = [i for i, cal in f.calls() if cal and cal["name"] == "slicemultiply" and i in pos]
+        bb = [i for i, cal in f.calls() if cal and cal["name"] == "bsplinebasis" and i in pos]
+        tr = [i for i, cal in f.calls() if cal and cal["name"] == "cholmod_l_transpose" and i in pos]
+        if not sm:
+            raise core.AnalysisBroken("GE-8: no slicemultiply call in %s" % name)
+        loops = core.natural_loops(f)
+        for k, s in enumerate(sm):
+            sb = pos[s][0]
+            # innermost loop (smallest body) that contains the multiplication
+            inl = sorted([L for L in loops if sb in L[1]], key=lambda L: len(L[1]))
+            ok, det = False, "slicemultiply is not inside a loop"
+            if inl:
+                body = inl[0][1]
+
+                def covered(calls):
+                    return any(pos[c][0] in body and (pos[c][0] in dom.get(sb, ()) and (pos[c][0] != sb or pos[c][1] < pos[s][1])) for c in calls)
+                ok = covered(bb) and covered(tr)
+                det = "bsplinebasis and the transposition of the same iteration dominate the multiplication" if ok else \
+                    "slicemultiply can be reached in an iteration that did not compute its own basis matrix (bsplinebasis on every path: %s, transpose: %s): " \
+                    "the matrix of another axis, with that axis' number of grid points, is applied" % (covered(bb), covered(tr))
+            C.ob("GE-8", name, "basis-of-this-iteration#%d" % k, ok, f.loc(s), det)
